@@ -1535,10 +1535,19 @@ class ConeBeamGeometry(DivergentBeamGeometry, AxisOrientedGeometry):
         apart = part.byaxis[0]
         dpart = part.byaxis[1:]
 
+        # The constructor takes the curvature radii as a 2-tuple, whereas
+        # the `det_curvature_radius` property is the scalar detector radius
+        if isinstance(self.detector, SphericalDetector):
+            curve_rad = (self.detector.radius, self.detector.radius)
+        elif isinstance(self.detector, CylindricalDetector):
+            curve_rad = (self.detector.radius, None)
+        else:
+            curve_rad = None
+
         return ConeBeamGeometry(apart, dpart,
                                 src_radius=self.src_radius,
                                 det_radius=self.det_radius,
-                                det_curvature_radius=self.det_curvature_radius,
+                                det_curvature_radius=curve_rad,
                                 pitch=self.pitch,
                                 axis=self.axis,
                                 offset_along_axis=self.offset_along_axis,
